@@ -124,6 +124,9 @@ impl Octree {
 
         use rayon::prelude::*;
 
+        #[cfg(fidget_verif)]
+        let todo = fidget_core::verif::SimVec::new(Vec::from(todo));
+
         struct Output {
             cell: CellIndex<3>,
             octree: Octree,
